@@ -741,6 +741,12 @@ type Case struct {
 	// (n the neighbour first, a authorize_sender first, - unordered)
 	HasK                     bool
 	KStage, KVerdict, KFirst string
+	// SMTP sessions only (op-line group `| L <place> <order>`): WHERE in the pipeline the check group with
+	// authorize_sender is declared (g: globally, s: in the source block, d: in the destination block of the
+	// domain relay.example, whose recipients go to a target of their own; the block of the other recipients has no
+	// check) and which recipients the client names, in order (R: a recipient of relay.example, L: another recipient)
+	HasL           bool
+	LPlace, LOrder string
 
 	// which reading of the table.chain documentation the reference takes (see chainRef)
 	reading int
@@ -878,6 +884,9 @@ func SessionOpLine(cs *Case) string {
 	if cs.HasK {
 		fmt.Fprintf(&b, " | K %s %s %s", cs.KStage, cs.KVerdict, cs.KFirst)
 	}
+	if cs.HasL {
+		fmt.Fprintf(&b, " | L %s %s", cs.LPlace, cs.LOrder)
+	}
 	b.WriteString(replayTail(cs))
 	return b.String()
 }
@@ -974,6 +983,11 @@ func ParseOp(op string) (*Case, string, error) {
 				return nil, "", fmt.Errorf("bad K group")
 			}
 			cs.HasK, cs.KStage, cs.KVerdict, cs.KFirst = true, t[1], t[2], t[3]
+		case "L":
+			if len(t) != 3 || strings.Trim(t[2], "RL") != "" || t[2] == "" {
+				return nil, "", fmt.Errorf("bad L group")
+			}
+			cs.HasL, cs.LPlace, cs.LOrder = true, t[1], t[2]
 		case "p", "u":
 			var vs []string
 			for _, x := range t[2:] {
@@ -3228,6 +3242,42 @@ func FixedNeighbour() []*Case {
 		}
 	}
 	return grid
+}
+
+// FixedPlaced: the check group with authorize_sender declared globally, in the source block or in a destination
+// block (checks of a destination block are instantiated when the first recipient of the block is named: the
+// sender decision is then made late, by replay), recipients of the checked and of an unchecked block in every
+// order.  Whatever the place, a message that reaches a target behind the check must come from an entitled client.
+func FixedPlaced() []*Case {
+	var grid []*Case
+	alice, bob := Addr{"alice", "example.org"}, Addr{"bob", "example.com"}
+	for _, place := range []string{"g", "s", "d"} {
+		for _, order := range []string{"R", "RL", "LR", "RR", "LLR", "RLR"} {
+			for k := 0; k < 4; k++ {
+				var cs *Case
+				switch k {
+				case 0:
+					cs = wdCase("alice@example.org", "auto", Tab{Kind: "I"}, bob, bob)
+				case 1:
+					cs = wdCase("alice@example.org", "auto", Tab{Kind: "I"}, alice, bob)
+				case 2: // forged envelope sender, own author: only the envelope is off
+					cs = wdCase("alice@example.org", "auto", Tab{Kind: "I"}, bob, alice)
+				default:
+					cs = wdCase("alice@example.org", "auto", Tab{Kind: "I"}, alice, alice)
+				}
+				cs.HasL, cs.LPlace, cs.LOrder = true, place, order
+				grid = append(grid, cs)
+			}
+		}
+	}
+	return grid
+}
+
+// GenPlaced draws the place of the check group and the recipients of a generated session.
+func GenPlaced(r *vh.Rng, cs *Case) {
+	cs.HasL = true
+	cs.LPlace = r.Pick("d", "d", "d", "d", "s", "g")
+	cs.LOrder = r.Pick("R", "R", "RL", "LR", "LR", "RR", "LLR", "LRL", "RLR", "LRR")
 }
 
 // GenNeighbour draws the neighbour of a generated session.
